@@ -7,6 +7,8 @@ struct Scan {
     assigned: Vec<Expr>,
     /// receivers of `<place>.push(x)`: rewrites of the list when the translator models its elements
     pushed: Vec<Expr>,
+    /// `<place>.m(args)`: if `m` is a translated method of the struct at that place, the places it writes are written here too
+    place_calls: Vec<(Expr, String)>,
     calls: bool,
 }
 
@@ -43,21 +45,45 @@ impl<'ast> syn::visit::Visit<'ast> for Scan {
                 }
                 self.calls = true
             }
-            Expr::MethodCall(_) | Expr::Call(_) => self.calls = true,
+            Expr::MethodCall(m) => {
+                self.place_calls.push(((*m.receiver).clone(), m.method.to_string()));
+                self.calls = true
+            }
+            Expr::Call(_) => self.calls = true,
             _ => {}
         }
         syn::visit::visit_expr(self, e);
     }
 }
 
+/// `LIST[i].field` / `LIST.last_mut().unwrap().field` as an assignment target: (the list expression, the index if any, the field).
+fn rec_elem_target(t: &Expr) -> Option<(&Expr, Option<&Expr>, String)> {
+    if let Expr::Field(f) = t {
+        if let syn::Member::Named(fname) = &f.member {
+            match &*f.base {
+                Expr::Index(ix) => return Some((&*ix.expr, Some(&*ix.index), fname.to_string())),
+                Expr::MethodCall(u) if u.method == "unwrap" && u.args.is_empty() => {
+                    if let Expr::MethodCall(l) = &*u.receiver {
+                        if (l.method == "last_mut" || l.method == "last") && l.args.is_empty() {
+                            return Some((&*l.receiver, None, fname.to_string()));
+                        }
+                    }
+                }
+                _ => {}
+            }
+        }
+    }
+    None
+}
+
 fn scan_block(b: &syn::Block) -> Scan {
-    let mut s = Scan { has_break: false, has_exit: false, assigned: vec![], pushed: vec![], calls: false };
+    let mut s = Scan { has_break: false, has_exit: false, assigned: vec![], pushed: vec![], place_calls: vec![], calls: false };
     syn::visit::Visit::visit_block(&mut s, b);
     s
 }
 
 fn scan_expr(e: &Expr) -> Scan {
-    let mut s = Scan { has_break: false, has_exit: false, assigned: vec![], pushed: vec![], calls: false };
+    let mut s = Scan { has_break: false, has_exit: false, assigned: vec![], pushed: vec![], place_calls: vec![], calls: false };
     syn::visit::Visit::visit_expr(&mut s, e);
     s
 }
@@ -140,6 +166,13 @@ impl<'a> Cx<'a> {
     /// Which variables / places of the enclosing scope a piece of code assigns.
     fn assigned_outer(&mut self, scan: &Scan, effects: bool) -> R<Vec<(String, bool)>> {
         let mut out: Vec<(String, bool)> = Vec::new();
+        for (recv, m) in &scan.place_calls {
+            for p in self.places_written_through(recv, m) {
+                if self.written.contains(&p) && !out.contains(&(p.clone(), true)) {
+                    out.push((p, true));
+                }
+            }
+        }
         for t in &scan.pushed {
             if let Some(p) = self.path_of(t) {
                 if self.written.contains(&p) && !out.contains(&(p.clone(), true)) {
@@ -148,6 +181,10 @@ impl<'a> Cx<'a> {
             }
         }
         for t in &scan.assigned {
+            let t = match rec_elem_target(t) {
+                Some((l, _, _)) if self.path_of(l).is_some() => l,
+                _ => t,
+            };
             let item = if let Some(p) = self.path_of(t) {
                 (p, true)
             } else if let Expr::Path(p) = t {
@@ -243,6 +280,71 @@ impl<'a> Cx<'a> {
     }
 
     /// Return type of an inherent method of the self type that takes `&mut self`.
+    /// The caller's places that `RECV.m(..)` writes when `m` is a translated method of the struct at RECV.
+    fn places_written_through(&mut self, recv: &Expr, m: &str) -> Vec<String> {
+        let rp = match self.path_of(recv) {
+            Some(p) if p.contains('.') => p,
+            _ => return vec![],
+        };
+        let comps: Vec<String> = rp.split('.').skip(1).map(|s| s.to_string()).collect();
+        let root = rp.split('.').next().unwrap_or("self").to_string();
+        let mut rty = match self.place_type(&root, &comps) {
+            Ok(t) => t,
+            Err(_) => return vec![],
+        };
+        loop {
+            match &rty {
+                Ty::Ref(i) => rty = (**i).clone(),
+                Ty::Path { name, args } if TRANSPARENT.contains(&name.as_str()) && args.len() == 1 => rty = args[0].clone(),
+                _ => break,
+            }
+        }
+        let head = match rty.head() {
+            Some(h) => h.to_string(),
+            None => return vec![],
+        };
+        match self.callees.get(&format!("{}::{}", head, m)) {
+            Some(s) if s.simple => s.written.iter().map(|w| format!("{}.{}", rp, w.strip_prefix("self.").unwrap_or(w))).collect(),
+            _ => vec![],
+        }
+    }
+
+    fn method_takes_shared_self(&self, m: &str) -> bool {
+        let st = match &self.self_ty {
+            Some(s) => s.clone(),
+            None => return false,
+        };
+        for im in &self.db.impls {
+            if im.self_ty.head() == Some(st.as_str()) {
+                for f in &im.fns {
+                    if f.sig.ident == m {
+                        return matches!(f.sig.inputs.first(), Some(syn::FnArg::Receiver(r)) if r.mutability.is_none() && r.reference.is_some());
+                    }
+                }
+            }
+        }
+        false
+    }
+
+    fn interior_mutable_fields(&self) -> Vec<String> {
+        let st = match &self.self_ty {
+            Some(s) => s.clone(),
+            None => return vec![],
+        };
+        match self.db.structs.get(&st) {
+            Some(v) if v.len() == 1 => v[0]
+                .fields
+                .iter()
+                .filter(|(_, t)| {
+                    let text = format!("{}", t);
+                    text.contains("Cell<") || text.contains("RefCell<") || text.contains("Mutex<") || text.contains("Atomic")
+                })
+                .map(|(n, _)| n.clone())
+                .collect(),
+            _ => vec![],
+        }
+    }
+
     fn mut_self_method_ret(&self, m: &str) -> Option<Ty> {
         let st = self.self_ty.clone()?;
         for im in &self.db.impls {
@@ -309,6 +411,51 @@ impl<'a> Cx<'a> {
                 }
             }
         }
+        if let Some((lexpr, idx, fname)) = rec_elem_target(target) {
+            if let Some(p) = self.path_of(lexpr) {
+                if self.written.contains(&p) {
+                    let cur = self.place(&p)?;
+                    if let LT::List(et) = &cur.ty {
+                        if let LT::Rec(_, fs) = &**et {
+                            if let Some(kf) = fs.iter().position(|(n, _)| *n == fname) {
+                                if fs[kf].1 != value.ty {
+                                    return self.un(format!("assignment to field `{}` of an element of `{}`: modelled types differ", fname, p));
+                                }
+                                let n = fs.len();
+                                let mut comps = Vec::new();
+                                for j in 0..n {
+                                    if j == kf {
+                                        comps.push(value.term.clone());
+                                    } else {
+                                        let mut term = "e_".to_string();
+                                        for _ in 0..j {
+                                            term = format!("{}.2", term);
+                                        }
+                                        if j + 1 < n {
+                                            term = format!("{}.1", term);
+                                        }
+                                        comps.push(term);
+                                    }
+                                }
+                                let upd = format!("(fun e_ => ({}))", comps.join(", "));
+                                let mut pre = value.pre;
+                                let v = self.fresh("t");
+                                match idx {
+                                    Some(ie) => {
+                                        let i = self.expr(ie, Some(&LT::I("usize")))?;
+                                        pre.extend(i.pre);
+                                        pre.push(Pre::Bind(v.clone(), format!("(Rs.modifyIdx {} {} {})", cur.lean, i.term, upd)));
+                                    }
+                                    None => pre.push(Pre::Bind(v.clone(), format!("(Rs.modifyLast {} {})", cur.lean, upd))),
+                                }
+                                let body = self.block(rest, k)?;
+                                return Ok(wrap_pre(&pre, format!("(let {} := {};\n  {})", cur.lean, v, body)));
+                            }
+                        }
+                    }
+                }
+            }
+        }
         if let Some(p) = self.path_of(target) {
             if !self.written.contains(&p) {
                 return self.un(format!("internal: write to `{}` missed by the pre-pass", p));
@@ -367,7 +514,14 @@ impl<'a> Cx<'a> {
         }
         let eff = self.effect(&name, texts);
         if mutates_self {
-            self.invalidate_places_after(&name);
+            // a method that takes `&self` can only change fields with interior mutability (Cell / RefCell): the other places stay
+            let shared = name.starts_with("self.") && !name[5..].contains('.') && self.method_takes_shared_self(&name[5..]);
+            if shared {
+                let cells: Vec<String> = self.interior_mutable_fields();
+                self.places.retain(|p, _| !cells.iter().any(|c| p == &format!("self.{}", c) || p.starts_with(&format!("self.{}.", c))));
+            } else {
+                self.invalidate_places_after(&name);
+            }
         }
         let body = self.block(rest, k)?;
         Ok(wrap_pre(&pre, format!("({}{})", eff, body)))
@@ -422,10 +576,11 @@ impl<'a> Cx<'a> {
             return Ok(wrap_pre(&c.pre, format!("(if {} then\n  {}\n  else\n  {})", c.term, t, f)));
         }
         // no exits: the branches meet again; the assigned variables are handed over as a tuple
-        let mut all = Scan { has_break: false, has_exit: false, assigned: then_scan.assigned.clone(), pushed: then_scan.pushed.clone(), calls: then_scan.calls };
+        let mut all = Scan { has_break: false, has_exit: false, assigned: then_scan.assigned.clone(), pushed: then_scan.pushed.clone(), place_calls: then_scan.place_calls.clone(), calls: then_scan.calls };
         if let Some(s) = &else_scan {
             all.assigned.extend(s.assigned.clone());
             all.pushed.extend(s.pushed.clone());
+            all.place_calls.extend(s.place_calls.clone());
             all.calls |= s.calls;
         }
         let had_effects = self.has_effects;
@@ -455,6 +610,7 @@ impl<'a> Cx<'a> {
             cx.restore_keep_effects(&snapshot);
             Ok((t, f))
         };
+        let hard_before = self.hard_inval;
         let (mut t, mut f) = try_branches(self, &vars)?;
         if self.has_effects && !vars.iter().any(|(n, _)| n == "effs_") && (all.calls || !had_effects) {
             // the branches record effects: hand the effect list over as well
@@ -465,7 +621,13 @@ impl<'a> Cx<'a> {
         }
         // a branch that made an opaque `&mut self` call invalidates the places for what follows
         if all.calls && self.has_effects {
-            self.invalidate_places();
+            if self.hard_inval != hard_before {
+                self.invalidate_places();
+            } else {
+                // only `&self` callees ran in the branches: fields with interior mutability may have changed, nothing else
+                let cells: Vec<String> = self.interior_mutable_fields();
+                self.places.retain(|p, _| !cells.iter().any(|c| p == &format!("self.{}", c) || p.starts_with(&format!("self.{}.", c))));
+            }
         }
         let jv = self.fresh("j");
         let lets = self.rebind_joined(&vars, &jv)?;
